@@ -130,23 +130,24 @@ def toExpr (n : Ecal.Parse.Node) (atoms : Array (List Nat)) : Option (Expr × Ar
 /-- text of an operator tree with the parentheses the printer decided, with the operator spellings of the
     full printer's templates; `parent` = name of the enclosing operator (none at the root). A sink attribute
     is indented unless its parent is in ppPostProcessing's no-initial-indent list. -/
+def fill (pieces : Option (List (String ⊕ Nat))) (kids : List (List Nat)) : List Nat :=
+  match pieces with
+  | none => Ecal.Print.s "<?>"
+  | some ps => ps.flatMap fun pc => match pc with
+    | .inl t => Ecal.Print.s t
+    | .inr k => kids.getD (k - 1) (Ecal.Print.s "<?>")
+
 def renderP (atoms : Array (List Nat)) : Option String → PExpr → List Nat
   | _, .atom n => atoms.getD n []
   | parent, .paren x => Ecal.Print.s "(" ++ renderP atoms parent x ++ Ecal.Print.s ")"
   | _, .bin k l r =>
     let name := ((infixOps[k]?).map (·.1)).getD ""
-    let sym := match Ecal.Print.tmpl (name ++ "_2") with
-      | some [.inr 1, .inl sym, .inr 2] => Ecal.Print.s sym
-      | _ => Ecal.Print.s "<?>"
-    renderP atoms (some name) l ++ sym ++ renderP atoms (some name) r
+    fill (Ecal.Print.tmpl (name ++ "_2")) [renderP atoms (some name) l, renderP atoms (some name) r]
   | parent, .pre k x =>
     let name := ((prefixOps[k]?).map (·.1)).getD ""
-    let sym := match Ecal.Print.tmpl (name ++ "_1") with
-      | some [.inl sym, .inr 1] => Ecal.Print.s sym
-      | _ => Ecal.Print.s "<?>"
     let indent := match parent with
       | some p => if sinkAttrs.contains name && !Ecal.Print.noInitialIndentParents.contains p then Ecal.Print.s "    " else []
       | none => []
-    indent ++ sym ++ renderP atoms (some name) x
+    indent ++ fill (Ecal.Print.tmpl (name ++ "_1")) [renderP atoms (some name) x]
 
 end Ecal.C08
